@@ -16,11 +16,17 @@ use std::collections::BTreeSet;
 
 const STEP_BUDGET: u64 = 5_000_000;
 
+pub const RENAMINGS: usize = 8;
+
 /// renamings of the base labels a, b, c, d: (written, label)
 fn renaming(r: usize) -> Vec<(String, String)> {
     let q = |s: &str| (format!("\"{}\"", s), s.to_string());
     let p = |s: &str| (s.to_string(), s.to_string());
-    match r % 6 {
+    match r % RENAMINGS {
+        // labels that are images of each other under the escaping used for biodivine variable names
+        6 => vec![q("a b"), q("a_20_b"), q("_"), q("a_5f_b")],
+        // prefixes and case variants of each other
+        7 => vec![p("ab"), p("a"), p("Ab"), p("aB")],
         0 => vec![p("a"), p("b"), p("c"), p("d")],
         1 => vec![p("a10"), p("a9"), p("B"), p("b0")],
         2 => vec![p("10"), p("9"), q("x y"), p("Z")],
@@ -421,20 +427,20 @@ pub fn order_sensitive_case(m: usize) -> Vec<(String, String)> {
 
 pub fn run_c10(run: &Run) {
     writers_selfcheck();
-    run.set_rule("base ADFs: A(2), F(3,1), F(3,2) (thorough: + a residue class of A(3)) and the large family L (12-48 statements). Presentations: all permutations of the fact list for <= 6 facts (A(2): all 24 x 3 sortings x 6 renamings x 2 layouts; F(3,1): all 720 with sorting/renaming/layout as a fixed function of the permutation index), a fixed list of 14 permutations otherwise (identity, reverse, rotations, all ac first, interleaved, strided); sorting none / varsort_lexi / varsort_alphanum; two layouts; six injective renamings chosen to reorder under both sortings (a10/a9/B, digits, quoted, permuted names, keywords, reserved characters); back-ends native, biodivine, hybrid. Grounded interpretation and the multisets of complete, stable and two-valued models are read as maps label -> T/F/u, mapped back through the renaming and compared with the definition (small ADFs) or with the first presentation (large ADFs; grounded also with the definition). After varsort_lexi the labels are byte-wise sorted and dict_value(label) is the position. Non-trivial: presentations other than the identity.");
+    run.set_rule("base ADFs: A(2), F(3,1), F(3,2) (thorough: + a residue class of A(3)) and the large family L (12-48 statements). Presentations: all permutations of the fact list for <= 6 facts (A(2): all 24 x 3 sortings x 8 renamings x 2 layouts; F(3,1): all 720 with sorting/renaming/layout as a fixed function of the permutation index), a fixed list of 14 permutations otherwise (identity, reverse, rotations, all ac first, interleaved, strided); sorting none / varsort_lexi / varsort_alphanum; two layouts; eight injective renamings chosen to reorder under both sortings (a10/a9/B, digits, quoted, permuted names, keywords, reserved characters, labels that are escape images of each other, prefixes and case variants of each other); back-ends native, biodivine, hybrid. Grounded interpretation and the multisets of complete, stable and two-valued models are read as maps label -> T/F/u, mapped back through the renaming and compared with the definition (small ADFs) or with the first presentation (large ADFs; grounded also with the definition). After varsort_lexi the labels are byte-wise sorted and dict_value(label) is the position. Non-trivial: presentations other than the identity.");
     run.assume("large instances: complete models only if the grounded interpretation leaves <= 5 statements undecided, stable/two-valued only if <= 9");
     let quick = run.quick();
     // A(2): everything
     let a2 = Source::FamCompact(fam_a(2));
-    let per = 24 * 3 * 6 * 2u64;
+    let per = 24 * 3 * RENAMINGS as u64 * 2;
     let res = run.par_family(
-        "A(2) x 24 fact orders x 3 sortings x 6 renamings x 2 layouts",
+        "A(2) x 24 fact orders x 3 sortings x 8 renamings x 2 layouts",
         a2.size() * per,
         || (0u64, 0u64),
         |st, k| {
             let c = a2.get(k / per);
             let v = k % per;
-            let (p, s, r, l) = (v % 24, (v / 24 % 3) as usize, (v / 72 % 6) as usize, (v / 432) as usize);
+            let (p, s, r, l) = (v % 24, (v / 24 % 3) as usize, (v / 72 % RENAMINGS as u64) as usize, (v / (72 * RENAMINGS as u64)) as usize);
             st.0 += 1;
             if v != 0 {
                 st.1 += 1;
@@ -458,7 +464,7 @@ pub fn run_c10(run: &Run) {
         |st, k| {
             let c = f31.get(k / 720);
             let p = k % 720;
-            let (s, r, l) = ((p % 3) as usize, (p / 3 % 6) as usize, (p / 18 % 2) as usize);
+            let (s, r, l) = ((p % 3) as usize, (p / 3 % RENAMINGS as u64) as usize, (p / (3 * RENAMINGS as u64) % 2) as usize);
             st.0 += 1;
             st.1 += (p != 0) as u64;
             let (text, found) = small_variant(&c.fms, &c.tts, &kth_perm(6, p), s, r, l);
@@ -486,7 +492,7 @@ pub fn run_c10(run: &Run) {
             |st, k| {
                 let c = src.get(k / np);
                 let p = if quick { ((k % np) * 2 + (k / np) % 2) as usize } else { (k % np) as usize };
-                let (s, r, l) = (p % 3, (p + (k / np) as usize) % 6, p / 7 % 2);
+                let (s, r, l) = (p % 3, (p + (k / np) as usize) % RENAMINGS, p / 7 % 2);
                 st.0 += 1;
                 st.1 += (p != 0) as u64;
                 let perm = fixed_perm(2 * c.tts.len(), p);
